@@ -295,4 +295,7 @@ def run(res, tier):
     res.rule = ("one case = one returning path (process_origin, process_aspa, processors) or one loop iteration "
                 "(process_key per ASN, add_roa per origin); z3 decides whether the insert/skip decision can disagree "
                 "with the documented filter; evaluations = z3 queries")
+    import argslice
+    for nm, fl in (("limit_v4_len", "--limit-v4-len"), ("limit_v6_len", "--limit-v6-len")):
+        argslice.check_cli_number(res, E, mprop, nm, fl, True, "VRPs are then filtered against another prefix length than the operator gave")
     mprop.finish_engine(res, E)
